@@ -8,7 +8,7 @@ stress or strain as a function of the load (arbitrary unless stated).  `binned n
 `ValueError` of the code.  What the code rejects and the theorems therefore exclude: `number_of_bins = 0`
 (division by zero), a non-positive maximum (edges not increasing: `searchsorted` precondition).
 
-Per-point tables: `lookupMulti` is the per-point look-up as REPAIRED by `tools/fixes/C07-binned-per-point-class.diff`
+Per-point tables: `lookupMulti` is the per-point look-up as REPAIRED by /repo commit 3047e0d
 (every point selects the class in its own column and is checked against its own range): `binned_multi_eq_single` and
 `binned_multi_out_of_range` hold for EVERY per-point Series.  `lookupMultiFirst` is the code before the repair (class
 and range check of the first point for all points); for it the property fails
@@ -305,7 +305,7 @@ example : lookupMulti 2 (tableMulti 2 [(4 : ℚ), 2] 2 (fun e => 10 * e)) [1, 10
 
 /-! ### the per-point look-up as coded before the repair (class of the first point for all points)
 
-`lookupMultiFirst` is the code before `tools/fixes/C07-binned-per-point-class.diff`.  It agrees with the single look-ups
+`lookupMultiFirst` is the code before /repo commit 3047e0d.  It agrees with the single look-ups
 for proportional loads only (`binned_multi_first_point_eq_single_partial`, the hypothesis `hprop` is what is missing
 for the property), and it returns a value for a point above its own maximum
 (`first_point_selection_ignores_range_of_other_points`): the property's clauses "any load above the initialised
